@@ -1,5 +1,5 @@
 (* C15 — journal records round-trip bit-exactly.  Only property theorems. *)
-From FJ Require Import Bytes Codec Reader CodecP ReaderP.
+From FJ Require Import Bytes Codec Reader CodecP ReaderP DamageP.
 
 Section C15.
   Variable hash : bytes -> N.
@@ -23,7 +23,27 @@ Section C15.
     read_journal hash compress decompress (enc_journal hash compress bs ++ zeros z)
       = (map rbatch_of bs, RStop (blen (enc_journal hash compress bs))).
   Proof. exact (read_journal_roundtrip hash compress decompress hash_bound). Qed.
+
+  (* damage: for ANY byte string L (however altered), every batch the reader
+     emits consists of the items and clears of some record list whose encoding
+     hashes to a checksum that stands in L as an End marker *)
+  Theorem C15_accepted_batches_checksummed : forall (L : bytes) (bs : list rbatch) (o : routcome),
+    read_journal hash compress decompress L = (bs, o) ->
+    Forall (checksummed hash compress decompress L) bs.
+  Proof. exact (accepted_batches_checksummed hash compress decompress). Qed.
+
+  (* ... so records different from the written ones can only be accepted against
+     the written checksum if xxh3 collides on two different byte strings
+     (partial: the Start marker's seqno and item count are outside the checksum) *)
+  Theorem C15_damage_needs_collision : forall (recs recs' : list record),
+    Forall (wf_record compress decompress) recs -> Forall (wf_record compress decompress) recs' ->
+    recs <> recs' ->
+    hash (enc_records compress recs') = hash (enc_records compress recs) ->
+    exists a b, a <> b /\ hash a = hash b.
+  Proof. exact (damage_needs_collision hash compress decompress). Qed.
 End C15.
 
 Print Assumptions C15_entry_roundtrip.
 Print Assumptions C15_journal_roundtrip.
+Print Assumptions C15_accepted_batches_checksummed.
+Print Assumptions C15_damage_needs_collision.
